@@ -195,7 +195,7 @@ func init() {
 	addControl(control{Prop: "C14", Name: "conversion-error-names-other-value", Rule: "R14c", Kind: "mutant",
 		File: "reify.go", Old: "	b, err := val.toBool(opts.opts)\n	if err != nil {\n		return reflect.Value{}, raiseConversion(opts.opts, val, err, \"bool\")", New: "	b, err := val.toBool(opts.opts)\n	if err != nil {\n		pc := val.Context()\n		return reflect.Value{}, raiseConversion(opts.opts, pc.parent, err, \"bool\")", Expect: "R14c/ucfg.reifyBool"})
 	addControl(control{Prop: "C14", Name: "countfield-wrap-via-helper-variable", Rule: "R14a", Kind: "refactor", Quick: true,
-		File: "getset.go", Old: "			ctx := v.Context()\n			return -1, raisePathErr(err, v.meta(), \"\", ctx.path(\".\"))", New: "			ctx := v.Context()\n			var wrapped Error = raisePathErr(err, v.meta(), \"\", ctx.path(\".\"))\n			return -1, wrapped"})
+		File: "getset.go", Old: "		ctx := v.Context()\n		return -1, raisePathErr(fail, v.meta(), \"\", ctx.path(\".\"))", New: "		ctx := v.Context()\n		var wrapped Error = raisePathErr(fail, v.meta(), \"\", ctx.path(\".\"))\n		return -1, wrapped"})
 }
 
 func init() {
@@ -365,7 +365,7 @@ func init() {
 		File: "reify.go", Old: "	orig.Set(pointerize(orig.Type(), to.Type(), to))\n	return nil\n}\n\nfunc reifyGetField(", New: "	res := pointerize(orig.Type(), to.Type(), to)\n	orig.Set(res)\n	return nil\n}\n\nfunc reifyGetField("})
 	// ---------------- C09 ----------------
 	addControl(control{Prop: "C09", Name: "map-keys-unsorted", Rule: "R09a", Kind: "mutant", Quick: true,
-		File: "merge.go", Old: "	sort.Slice(keys, func(i, j int) bool {\n		return mapKeyString(keys[i]) < mapKeyString(keys[j])\n	})\n", New: "	_ = sort.Strings\n", Expect: "R09a/ucfg.normalizeMapInto"})
+		File: "merge.go", Old: "	sort.Slice(keys, func(i, j int) bool {\n		return mapKeyLess(keys[i], keys[j])\n	})\n", New: "	_ = sort.Strings\n", Expect: "R09a/ucfg.normalizeMapInto"})
 	addControl(control{Prop: "C09", Name: "merge-dict-ranges-over-map", Rule: "R09a", Kind: "mutant", Quick: true,
 		File: "merge.go", Old: "	for _, k := range sortedKeys(dict) {\n		v := dict[k]\n", New: "	for k, v := range dict {\n", Expect: "R09a/ucfg.mergeConfigDict"})
 	addControl(control{Prop: "C09", Name: "generic-reify-ranges-over-map", Rule: "R09a", Kind: "mutant",
@@ -374,7 +374,7 @@ func init() {
 	addControl(control{Prop: "C09", Name: "reify-map-ranges-over-map", Rule: "R09a", Kind: "mutant",
 		File: "reify.go", Old: "	for _, k := range sortedKeys(fields) {\n		value := fields[k]\n", New: "	for k, value := range fields {\n", Expect: "R09a/ucfg.reifyMap"})
 	addControl(control{Prop: "C09", Name: "validate-map-unsorted", Rule: "R09a", Kind: "mutant",
-		File: "validator.go", Old: "	sort.Slice(keys, func(i, j int) bool {\n		return mapKeyString(keys[i]) < mapKeyString(keys[j])\n	})\n", New: "	_ = sort.Strings\n", Expect: "R09a/ucfg.validateMap"})
+		File: "validator.go", Old: "	sort.Slice(keys, func(i, j int) bool {\n		return mapKeyLess(keys[i], keys[j])\n	})\n", New: "	_ = sort.Strings\n", Expect: "R09a/ucfg.validateMap"})
 	addControl(control{Prop: "C09", Name: "sorted-keys-not-sorted", Rule: "R09a", Kind: "mutant", Quick: true,
 		File: "ucfg.go", Old: "	for k := range dict {\n		keys = append(keys, k)\n	}\n	sort.Strings(keys)\n	return keys", New: "	for k := range dict {\n		keys = append(keys, k)\n	}\n	_ = sort.Strings\n	return keys", Expect: "R09a/ucfg.sortedKeys"})
 	addControl(control{Prop: "C09", Name: "copy-children-share-last-context", Rule: "R09a", Kind: "mutant",
@@ -460,9 +460,9 @@ func init() {
 	addControl(control{Prop: "C09", Name: "sort-key-by-value-string", Rule: "R09c", Kind: "mutant", Quick: true,
 		File: "merge.go", Old: "	k = chaseValueInterfaces(k)\n	if k.Kind() == reflect.String {\n		return k.String()\n	}\n	return fmt.Sprint(k.Interface())", New: "	_ = fmt.Sprint\n	return k.String()", Expect: "R09c/ucfg.mapKeyString"})
 	addControl(control{Prop: "C09", Name: "comparator-compares-key-with-itself", Rule: "R09d", Kind: "mutant",
-		File: "validator.go", Old: "		return mapKeyString(keys[i]) < mapKeyString(keys[j])", New: "		return mapKeyString(keys[i]) < mapKeyString(keys[i])", Expect: "R09d/ucfg.validateMap"})
+		File: "validator.go", Old: "		return mapKeyLess(keys[i], keys[j])", New: "		return mapKeyLess(keys[i], keys[i])", Expect: "R09d/ucfg.validateMap"})
 	addControl(control{Prop: "C09", Name: "comparator-with-locals", Rule: "R09d", Kind: "refactor",
-		File: "validator.go", Old: "		return mapKeyString(keys[i]) < mapKeyString(keys[j])", New: "		a, b := mapKeyString(keys[i]), mapKeyString(keys[j])\n		return a < b"})
+		File: "validator.go", Old: "		return mapKeyLess(keys[i], keys[j])", New: "		a, b := keys[i], keys[j]\n		return mapKeyLess(a, b)"})
 	addControl(control{Prop: "C11", Name: "captured-config-merged-without-identity-test", Rule: "R11d", Kind: "mutant", Quick: true,
 		File: "reify.go", Old: "		if sub == subOld {\n			return oldValue, nil\n		}\n", New: "", Expect: "R11d/ucfg.reifyMergeValue"})
 	addControl(control{Prop: "C11", Name: "identity-test-inverted-form", Rule: "R11d", Kind: "refactor",
@@ -591,8 +591,8 @@ func init() {
 	addControl(control{Prop: "C04", Name: "validation-skipped-for-some-slots", Rule: "R04f", Kind: "mutant",
 		File: "reify.go", Old: "		} else {\n			if err := tryRecursiveValidate(to.Index(idx), opts.opts, nil); err != nil {\n				return reflect.Value{}, raiseValidation(val.Context(), val.meta(), \"\", err)\n			}\n		}\n	}", New: "		} else if idx > start {\n			if err := tryRecursiveValidate(to.Index(idx), opts.opts, nil); err != nil {\n				return reflect.Value{}, raiseValidation(val.Context(), val.meta(), \"\", err)\n			}\n		}\n	}", Expect: "R04f/ucfg.reifyDoArray"})
 	addControl(control{Prop: "C04", Name: "three-loops-cover-the-list", Rule: "R04f", Kind: "refactor", Quick: true,
-		File: "reify.go", Old: "	for idx := 0; idx < tLen; idx++ {\n		if idx >= start && idx < start+aLen {\n			opts.opts.activeFields = newFieldSet(parentFields)\n			v, err := reifyMergeValue(opts, to.Index(idx), arr[idx-start])\n			if err != nil {\n				return reflect.Value{}, err\n			}\n			if v.IsValid() {\n				to.Index(idx).Set(v)\n			}\n		} else {\n			if err := tryRecursiveValidate(to.Index(idx), opts.opts, nil); err != nil {\n				return reflect.Value{}, raiseValidation(val.Context(), val.meta(), \"\", err)\n			}\n		}\n	}",
-		New: "	_ = tLen\n	for idx := 0; idx < start; idx++ {\n		if err := tryRecursiveValidate(to.Index(idx), opts.opts, nil); err != nil {\n			return reflect.Value{}, raiseValidation(val.Context(), val.meta(), \"\", err)\n		}\n	}\n	for i := 0; i < aLen; i++ {\n		opts.opts.activeFields = newFieldSet(parentFields)\n		v, err := reifyMergeValue(opts, to.Index(start+i), arr[i])\n		if err != nil {\n			return reflect.Value{}, err\n		}\n		if v.IsValid() {\n			to.Index(start + i).Set(v)\n		}\n	}\n	for idx := start + aLen; idx < to.Len(); idx++ {\n		if err := tryRecursiveValidate(to.Index(idx), opts.opts, nil); err != nil {\n			return reflect.Value{}, raiseValidation(val.Context(), val.meta(), \"\", err)\n		}\n	}"})
+		File: "reify.go", Old: "	for idx := 0; idx < tLen; idx++ {\n		if idx >= start && idx < start+aLen {\n			opts.opts.activeFields = newFieldSet(parentFields)\n			v, err := reifyMergeValue(opts, to.Index(idx), arr[idx-start])\n			if err != nil {\n				return reflect.Value{}, err\n			}\n			if v.IsValid() {\n				to.Index(idx).Set(pointerize(to.Type().Elem(), v.Type(), v))\n			}\n		} else {\n			if err := tryRecursiveValidate(to.Index(idx), opts.opts, nil); err != nil {\n				return reflect.Value{}, raiseValidation(val.Context(), val.meta(), \"\", err)\n			}\n		}\n	}",
+		New: "	_ = tLen\n	for idx := 0; idx < start; idx++ {\n		if err := tryRecursiveValidate(to.Index(idx), opts.opts, nil); err != nil {\n			return reflect.Value{}, raiseValidation(val.Context(), val.meta(), \"\", err)\n		}\n	}\n	for i := 0; i < aLen; i++ {\n		opts.opts.activeFields = newFieldSet(parentFields)\n		v, err := reifyMergeValue(opts, to.Index(start+i), arr[i])\n		if err != nil {\n			return reflect.Value{}, err\n		}\n		if v.IsValid() {\n			to.Index(start + i).Set(pointerize(to.Type().Elem(), v.Type(), v))\n		}\n	}\n	for idx := start + aLen; idx < to.Len(); idx++ {\n		if err := tryRecursiveValidate(to.Index(idx), opts.opts, nil); err != nil {\n			return reflect.Value{}, raiseValidation(val.Context(), val.meta(), \"\", err)\n		}\n	}"})
 	addControl(control{Prop: "C09", Name: "keys-sorted-case-insensitively", Rule: "R09d", Kind: "mutant", Quick: true,
 		File: "ucfg.go", Old: "		keys = append(keys, k)\n	}\n	sort.Strings(keys)\n	return keys\n}\n\nfunc (f *fields) del", New: "		keys = append(keys, k)\n	}\n	sort.Slice(keys, func(i, j int) bool { return len(keys[i]) < len(keys[j]) })\n	return keys\n}\n\nfunc (f *fields) del", Expect: "R09d/ucfg.sortedKeys"})
 	addControl(control{Prop: "C11", Name: "tag-parse-memoised-in-package-variable", Rule: "R11e", Kind: "mutant", Quick: true,
@@ -741,13 +741,13 @@ func init() {
 }
 
 func init() {
-	envNew := "		v, err = r.Path.GetValue(cfg, opts)\n		if err == nil && v != nil {\n			return v, nil\n		}\n"
+	envNew := "			v, err = r.Path.GetValue(cfg, opts)\n			if err == nil && v != nil {\n				return v, nil\n			}\n"
 	addControl(control{Prop: "C02", Name: "missing-name-ends-the-lookup", Rule: "R02e", Kind: "mutant", Quick: true,
-		File: "variables.go", Old: envNew, New: "		v, err = r.Path.GetValue(cfg, opts)\n		if err == nil {\n			if v == nil {\n				break\n			}\n\n			return v, nil\n		}\n", Expect: "R02e/(*ucfg.reference).resolveRef/nothing found goes on to the next environment"})
+		File: "variables.go", Old: envNew, New: "			v, err = r.Path.GetValue(cfg, opts)\n			if err == nil {\n				if v == nil {\n					break\n				}\n\n				return v, nil\n			}\n", Expect: "R02e/(*ucfg.reference).resolveRef/nothing found goes on to the next environment"})
 	addControl(control{Prop: "C02", Name: "failed-lookup-ends-the-lookup", Rule: "R02e", Kind: "mutant",
-		File: "variables.go", Old: envNew, New: "		v, err = r.Path.GetValue(cfg, opts)\n		if err != nil {\n			return nil, err\n		}\n		if v != nil {\n			return v, nil\n		}\n", Expect: "R02e/(*ucfg.reference).resolveRef/nothing found goes on to the next environment"})
+		File: "variables.go", Old: envNew, New: "			v, err = r.Path.GetValue(cfg, opts)\n			if err != nil {\n				return nil, err\n			}\n			if v != nil {\n				return v, nil\n			}\n", Expect: "R02e/(*ucfg.reference).resolveRef/nothing found goes on to the next environment"})
 	addControl(control{Prop: "C02", Name: "found-test-in-a-flag", Rule: "R02e", Kind: "refactor",
-		File: "variables.go", Old: envNew, New: "		v, err = r.Path.GetValue(cfg, opts)\n		found := err == nil && v != nil\n		if found {\n			return v, nil\n		}\n"})
+		File: "variables.go", Old: envNew, New: "			v, err = r.Path.GetValue(cfg, opts)\n			found := err == nil && v != nil\n			if found {\n				return v, nil\n			}\n"})
 }
 
 func init() {
@@ -855,7 +855,7 @@ func init() {
 	addControl(control{Prop: "C07", Name: "list-element-stored-without-its-pointers", Rule: "R07p", Kind: "mutant", Quick: true,
 		File: "reify.go", Old: "				to.Index(idx).Set(pointerize(to.Type().Elem(), v.Type(), v))\n", New: "				to.Index(idx).Set(v)\n", Expect: "R07p/ucfg.reifyDoArray"})
 	addControl(control{Prop: "C07", Name: "setchild-wraps-nil", Rule: "R07q", Kind: "mutant", Quick: true,
-		File: "getset.go", Old: "	if value == nil {\n		return raiseNil(ErrNilConfig)\n	}\n	return c.setField(name, idx, cfgSub{c: value}, opts)\n", New: "	return c.setField(name, idx, cfgSub{c: value}, opts)\n", Expect: "R07q/(*ucfg.Config).SetChild"})
+		File: "getset.go", Old: "	if value == nil {\n		return raiseNil(ErrNilConfig)\n	}\n\n	// A config can not become a child of itself", New: "	// A config can not become a child of itself", Expect: "R07q/(*ucfg.Config).SetChild"})
 	addControl(control{Prop: "C13", Name: "plain-values-replace-what-an-interface-holds", Rule: "R13f", Kind: "mutant", Quick: true,
 		File: "reify.go", Old: "	baseType := chaseTypePointers(old.Type())\n\n	if baseType.Kind() == reflect.Struct && tConfig.ConvertibleTo(baseType) {\n		sub, err := val.toConfig(opts.opts)\n		if err != nil {\n			return reflect.Value{}, raiseExpectedObject(opts.opts, val)\n		}\n\n		if t == baseType {", New: "	baseType := chaseTypePointers(old.Type())\n\n	if oldValue.Kind() == reflect.Interface && !isSub(val) && !isNil(val) {\n		return reifyValue(opts, oldValue.Type(), val)\n	}\n\n	if baseType.Kind() == reflect.Struct && tConfig.ConvertibleTo(baseType) {\n		sub, err := val.toConfig(opts.opts)\n		if err != nil {\n			return reflect.Value{}, raiseExpectedObject(opts.opts, val)\n		}\n\n		if t == baseType {", Expect: "R13f/ucfg.reifyMergeValue"})
 	addControl(control{Prop: "C16", Name: "handling-tree-written-under-the-callers-max-index", Rule: "R16f", Kind: "mutant", Quick: true,
@@ -937,4 +937,20 @@ func init() {
 		File: "merge.go", Old: "	if !isSub(old) {\n		subOld = cfgSub{subOld}.cpy(old.Context()).(cfgSub).c\n	}\n", New: "	if _, stored := old.(cfgSub); !stored {\n		cpy := cfgSub{subOld}.cpy(old.Context())\n		subOld = cpy.(cfgSub).c\n	}\n"})
 	addControl(control{Prop: "C07", Name: "sub-config-copy-that-can-return-a-null", Rule: "R07d", Kind: "mutant",
 		File: "types.go", Old: "func (c cfgSub) cpy(ctx context) value {\n", New: "func (c cfgSub) cpy(ctx context) value {\n	if c.c == nil {\n		return &cfgNil{cfgPrimitive{ctx, nil}}\n	}\n", Expect: "R07d/ucfg.mergeValues/assert to ucfg.cfgSub"})
+}
+
+func init() {
+	addControl(control{Prop: "C02", Name: "nil-environment-ends-the-lookup", Rule: "R02e", Kind: "mutant", Quick: true,
+		File: "variables.go", Old: "		if cfg = cfgRoot(cfg); cfg != nil {\n			var v value\n			v, err = r.Path.GetValue(cfg, opts)\n			if err == nil && v != nil {\n				return v, nil\n			}\n		}\n", New: "		var v value\n		cfg = cfgRoot(cfg)\n		if cfg == nil {\n			return nil, ErrMissing\n		}\n\n		v, err = r.Path.GetValue(cfg, opts)\n		if err == nil && v != nil {\n			return v, nil\n		}\n", Expect: "R02e/(*ucfg.reference).resolveRef/nothing found goes on"})
+	addControl(control{Prop: "C02", Name: "nil-environment-skipped-with-continue", Rule: "R02e", Kind: "refactor",
+		File: "variables.go", Old: "		if cfg = cfgRoot(cfg); cfg != nil {\n			var v value\n			v, err = r.Path.GetValue(cfg, opts)\n			if err == nil && v != nil {\n				return v, nil\n			}\n		}\n", New: "		root := cfgRoot(cfg)\n		if root != nil {\n			found, lookErr := r.Path.GetValue(root, opts)\n			if lookErr == nil && found != nil {\n				return found, nil\n			}\n			err = lookErr\n		}\n"})
+}
+
+func init() {
+	addControl(control{Prop: "C19", Name: "string-latches-its-own-error", Rule: "R19h", Kind: "mutant", Quick: true,
+		File: "flag/util.go", Old: "	return toString(v.Config(), v.collector.GetOptions())\n", New: "	return toString(v.Config(), v.collector.GetOptions(), func(err error) error { return v.collector.Add(nil, err) })\n", Expect: "R19h/(*flag.FlagValue).String",
+		More: []edit{{File: "flag/util.go", Old: "func toString(cfg *ucfg.Config, opts []ucfg.Option) string {\n	var tmp map[string]interface{}\n	if err := cfg.Unpack(&tmp, opts...); err != nil {\n		return err.Error()\n	}\n", New: "func toString(cfg *ucfg.Config, opts []ucfg.Option, onError func(error) error) string {\n	var tmp map[string]interface{}\n	if err := cfg.Unpack(&tmp, opts...); err != nil {\n		return onError(err).Error()\n	}\n"}}})
+	addControl(control{Prop: "C19", Name: "string-renders-through-a-callback-that-only-formats", Rule: "R19h", Kind: "refactor",
+		File: "flag/util.go", Old: "	return toString(v.Config(), v.collector.GetOptions())\n", New: "	return toString(v.Config(), v.collector.GetOptions(), func(err error) string { return err.Error() })\n",
+		More: []edit{{File: "flag/util.go", Old: "func toString(cfg *ucfg.Config, opts []ucfg.Option) string {\n	var tmp map[string]interface{}\n	if err := cfg.Unpack(&tmp, opts...); err != nil {\n		return err.Error()\n	}\n", New: "func toString(cfg *ucfg.Config, opts []ucfg.Option, render func(error) string) string {\n	var tmp map[string]interface{}\n	if err := cfg.Unpack(&tmp, opts...); err != nil {\n		return render(err)\n	}\n"}}})
 }
